@@ -10,7 +10,11 @@ import (
 	"math/rand"
 	"net/http"
 	"net/http/httptest"
+	"os"
+	"regexp"
 	"runtime"
+	"strconv"
+	"strings"
 
 	tpb "github.com/fullstorydev/grpchan/grpchantesting"
 	"github.com/fullstorydev/grpchan/httpgrpc"
@@ -123,7 +127,34 @@ func feedClient(body io.ReadCloser, status int) clientResult {
 }
 
 const allocSlack = 8 << 20
-const perMessageLimit = 100 << 20
+
+// perMessageLimit is the library's fixed per-message limit (maxMessageSize in
+// httpgrpc/io.go), read from the source at start-up; 100 MiB if it cannot be read.
+var perMessageLimit = int32(readMessageLimit())
+
+func readMessageLimit() int {
+	def := 100 << 20
+	b, err := os.ReadFile(repoDir() + "/httpgrpc/io.go")
+	if err != nil {
+		return def
+	}
+	m := regexp.MustCompile(`(?m)^\s*maxMessageSize\s*=\s*([0-9][0-9 *]*)`).FindSubmatch(b)
+	if m == nil {
+		return def
+	}
+	v := 1
+	for _, f := range strings.Split(string(m[1]), "*") {
+		n, err := strconv.Atoi(strings.TrimSpace(f))
+		if err != nil || n <= 0 {
+			return def
+		}
+		v *= n
+	}
+	if v < 1<<10 || v > 1<<31-1 {
+		return def
+	}
+	return v
+}
 
 func checkC07(e *core.Env) {
 	curEnv = e
@@ -221,7 +252,7 @@ func checkC07(e *core.Env) {
 			e.Violate(sig+"/panic", fmt.Sprintf("length prefix %d made the client panic: %s", pfx, trunc(res.pan, 500)), w)
 			return
 		}
-		limit := uint64(perMessageLimit + 32*b.Len() + allocSlack)
+		limit := uint64(int(perMessageLimit) + 32*b.Len() + allocSlack)
 		if pfx > 0 && pfx <= perMessageLimit {
 			limit += uint64(pfx)
 		}
@@ -262,7 +293,7 @@ func checkC07(e *core.Env) {
 		if res.pan != "" {
 			e.Violate("client-flip/panic", trunc(res.pan, 500), w)
 		}
-		if res.alloc > uint64(perMessageLimit+32*len(data)+allocSlack) {
+		if res.alloc > uint64(int(perMessageLimit)+32*len(data)+allocSlack) {
 			e.Violate("client-flip/allocation", fmt.Sprintf("a single flipped bit made the client allocate %d MiB", res.alloc>>20), w)
 		}
 		intact := 0
@@ -397,7 +428,7 @@ func checkC07(e *core.Env) {
 			e.Violate(sig+"/panic", trunc(pan, 500), w)
 			return
 		}
-		limit := uint64(perMessageLimit + 32*b.Len() + allocSlack)
+		limit := uint64(int(perMessageLimit) + 32*b.Len() + allocSlack)
 		if alloc > limit {
 			e.Violate(sig+"/allocation", fmt.Sprintf("length prefix %d made the server allocate %d MiB", pfx, alloc>>20), w)
 		}
@@ -437,7 +468,7 @@ func judgeClientDecode(e *core.Env, sig string, res clientResult, fb *framedBody
 		e.Violate(sig+"/endless", "the client kept delivering messages", w)
 		return
 	}
-	if res.alloc > uint64(perMessageLimit+32*len(fb.bytes)+allocSlack) {
+	if res.alloc > uint64(int(perMessageLimit)+32*len(fb.bytes)+allocSlack) {
 		e.Violate(sig+"/allocation", fmt.Sprintf("decoding %d bytes allocated %d MiB", cut, res.alloc>>20), w)
 	}
 	complete := 0
